@@ -45,6 +45,10 @@ pub fn check_exp(c: &ExpArg) -> Verdict {
     if v.fail.is_some() {
         return v;
     }
+    // the result carries the default precision: p digits (p+1 only for a rounding carry into 10..0)
+    let rd = bdoracle::dec::ndigits(&r.int);
+    let carried = rd == p + 1 && r.canonical().int.magnitude() == &num_bigint::BigUint::from(1u8);
+    ensure!(v, rd == p || carried, "C13/digits", "exp({}) has {} significant digits, expected {}", mx.show(), rd, p);
     match judge(&mx, &r, p, 1) {
         (ExpVerdict::Within, _) => {}
         (ExpVerdict::Undecided, _) => return Verdict::inconclusive("enclosure straddles the tolerance"),
